@@ -1,0 +1,39 @@
+//go:build verif
+
+// Contracts for the gocv verifier (comment-only file; see /verif/DESIGN.md §4).
+package dnsutils
+
+//@ import io "io"
+
+// Stream framing (C16). A reader is a ghost byte stream rdbyte(c, i) with cursor
+// ghost(rdpos, c) (see /verif/spec/std.gspec). frameLen is the big-endian length
+// announced at the cursor.
+//@ spec func frameLen(c io.Reader, p int) int = rdbyte(c, p) * 256 + rdbyte(c, p + 1)
+
+//@ func ReadRawMsgFromTCP [C16]
+//@   modifies ghost(rdpos, c)
+//@   ensures (result_1 == nil) == (result_0 != nil)
+//@   ensures result_1 == nil ==> fresh(result_0) && frameLen(c, old(ghost(rdpos, c))) > 12 && len(*result_0) == frameLen(c, old(ghost(rdpos, c)))
+//@   ensures result_1 == nil ==> forall i int :: 0 <= i && i < len(*result_0) ==> (*result_0)[i] == rdbyte(c, old(ghost(rdpos, c)) + 2 + i)
+//@   ensures result_1 == nil ==> ghost(rdpos, c) == old(ghost(rdpos, c)) + 2 + len(*result_0)
+//@   ensures calls(ReadFull) >= 1 && ret(ReadFull, 0, 1) != nil ==> result_1 != nil
+//@   ensures calls(ReadFull) >= 1 && ret(ReadFull, 0, 1) == nil && frameLen(c, old(ghost(rdpos, c))) <= 12 ==> result_1 != nil && calls(ReadFull) == 1
+//@   ensures calls(ReadFull) == 2 && ret(ReadFull, 1, 1) != nil ==> result_1 != nil
+//@   ensures result_1 == nil ==> calls(GetBuf) == 2 && calls(ReleaseBuf) == 1 && arg(ReleaseBuf, 0, 0) == ret(GetBuf, 0) && result_0 == ret(GetBuf, 1)
+//@   ensures result_1 != nil ==> calls(ReleaseBuf) == calls(GetBuf)
+
+//@ func WriteRawMsgToTCP [C16]
+//@   requires c != nil
+//@   ensures len(b) > 65535 ==> err != nil && calls(Write) == 0
+//@   ensures len(b) <= 65535 ==> calls(Write) == 1 && arg(Write, 0, 0) == c && len(arg(Write, 0, 1)) == len(b) + 2
+//@   ensures len(b) <= 65535 ==> atcall(Write, 0, arg(Write, 0, 1)[0] * 256 + arg(Write, 0, 1)[1] == len(b))
+//@   ensures len(b) <= 65535 ==> forall i int :: 0 <= i && i < len(b) ==> atcall(Write, 0, arg(Write, 0, 1)[2 + i] == b[i])
+//@   ensures len(b) <= 65535 ==> n == ret(Write, 0, 0) && err == ret(Write, 0, 1)
+//@   ensures calls(GetBuf) == calls(ReleaseBuf)
+
+//@ func WriteMsgToTCP [C16]
+//@   requires m != nil && c != nil
+//@   ensures calls(PackTCPBuffer) == 1
+//@   ensures ret(PackTCPBuffer, 0, 1) != nil ==> calls(Write) == 0 && err == ret(PackTCPBuffer, 0, 1)
+//@   ensures ret(PackTCPBuffer, 0, 1) == nil ==> calls(Write) == 1 && arg(Write, 0, 0) == c && arg(Write, 0, 1) == aftercall(PackTCPBuffer, 0, *ret(PackTCPBuffer, 0, 0))
+//@   ensures ret(PackTCPBuffer, 0, 1) == nil ==> calls(ReleaseBuf) == 1 && arg(ReleaseBuf, 0, 0) == ret(PackTCPBuffer, 0, 0)
